@@ -98,7 +98,7 @@ theorem doMpubStmts_eq : Nsq.Gen.Proto.doMpubStmts = ([
   "assign binaryMode, ok = boolParams[vals[0]]",
   "assign binaryMode = true",
   "if binaryMode",
-  "assign msgs, err = readMPUB(req.Body, tmp, topic, s.nsqd.getOpts().MaxMsgSize, s.nsqd.getOpts().MaxBodySize)",
+  "assign msgs, err = readMPUB(io.LimitReader(req.Body, s.nsqd.getOpts().MaxBodySize), tmp, topic, s.nsqd.getOpts().MaxMsgSize, s.nsqd.getOpts().MaxBodySize)",
   "return return nil, http_api.Err{413, err.(*protocol.FatalClientErr).Code[2:]}",
   "assign readMax := s.nsqd.getOpts().MaxBodySize + 1",
   "assign rdr := bufio.NewReader(io.LimitReader(req.Body, readMax))",
